@@ -90,6 +90,11 @@ WRONG = [NONE, ["bool", 1], ["bool", 0], I(0), I(1), I(-1), I(2), I(255), I(6553
          ["tuple", [NONE, S("da39a3ee5e6b4b0d3255bfef95601890afd80709\t"), NONE]],
          ["dict", [[S("md5"), S("d41d8cd98f00b204e9800998ecf8427e\n")]]],
          ["tuple", [NONE, S("da39a3ee5e6b4b0d3255bfef95601890afd80709"), S("e3b0c44298fc1c149afbf4c8996fb92427ae41e4649b934ca495991b7852b855")]],
+         # well-formed hex of ANOTHER hash's length in a slot (hashes given in the wrong order)
+         ["tuple", [S("da39a3ee5e6b4b0d3255bfef95601890afd80709"), S("d41d8cd98f00b204e9800998ecf8427e"), NONE]],
+         ["tuple", [S("e3b0c44298fc1c149afbf4c8996fb92427ae41e4649b934ca495991b7852b855"), NONE, NONE]],
+         ["tuple", [NONE, S("d41d8cd98f00b204e9800998ecf8427e"), NONE]],
+         ["tuple", [NONE, NONE, S("da39a3ee5e6b4b0d3255bfef95601890afd80709")]],
          ["tuple", [I(5), NONE, NONE]], ["tuple", [S("é" * 32), NONE, NONE]], ["list", [S("D41D8CD98F00B204E9800998ECF8427E"), NONE, NONE]],
          ["dict", [[S("a"), I(1)]]], ["dict", []], REC0, ["pathobj", "posix", enc_str("/a/b")], ["pathobj", "windows", enc_str("c:\\x")],
          ["dt", [2020, 1, 2, 3, 4, 5, 6], "naive", 0], ["dt", [2020, 1, 2, 3, 4, 5, 6], "utc", 0],
@@ -226,6 +231,10 @@ def _pool_for(r, t):
                     pool.append(["prelist", ft, vals])
     if not t.endswith("[]") and base not in ("record", "dynamic", "stringlist", "dictlist", "net.ipv4.Subnet"):
         pool += [["pre", base, V.gen_value(r, base, none_chance=0)] for _ in range(2)]
+    if base in ("net.ipaddress", "net.IPAddress"):
+        # an instance of the SIBLING field type (a network taken from another record's net.ipnetwork field)
+        pre = [["pre", "net.ipnetwork", S("10.0.0.0/8")], ["pre", "net.ipnetwork", S("1.2.3.4/32")], ["pre", "net.ipnetwork", S("fe80::/10")]]
+        pool += [["list", [x, S("1.2.3.4")]] for x in pre] if t.endswith("[]") else pre
     if base == "datetime":
         comps = r.choice([[2020, 1, 2, 3, 4, 5, 6], [1999, 12, 31, 23, 59, 59, 999999], [2024, 2, 29, 0, 0, 0, 0]])
         for how in DTVIA:
@@ -269,6 +278,13 @@ def gen_cases(rng, tier):
                       "args": [["dtvia", how, c7], ["list", [["dtvia", how, c7]]]],
                       "ops": [["assign", "a", ["dtvia", how, [1999, 12, 31, 23, 59, 59, 999999]]],
                               ["replace", [["a", ["dtvia", how, c7]], ["l", ["list", [["dt", c7, "naive", 0], ["dtvia", how, c7]]]]]]]})
+    # a network (instance of the sibling field type, taken from another record) offered where an ADDRESS is declared
+    for net in ("10.0.0.0/8", "1.2.3.4/32", "fe80::/10"):
+        cases.append({"kind": "seq", "fields": [["net.ipaddress", "a"], ["net.ipaddress[]", "l"]],
+                      "args": [S("1.2.3.4"), ["list", [S("::1")]]],
+                      "ops": [["assign", "a", ["pre", "net.ipnetwork", S(net)]],
+                              ["replace", [["l", ["list", [S("10.0.0.1"), ["pre", "net.ipnetwork", S(net)]]]]]],
+                              ["assign", "a", S("10.0.0.2")]]})
     # --- random histories
     r = rng.fork("seq")
     for _ in range(n):
